@@ -1,5 +1,5 @@
-(* SymCoreC02Dict.v -- every dict operation of the catalogue on a root pg.Dict refines the Python reference (PyDict)
-   on the erasure of its items. *)
+(* SymCoreC02Dict.v -- every dict operation of the catalogue on a pg.Dict (at any position of the forest) refines the Python
+   reference (PyDict) on the erasure of its items. *)
 From Coq Require Import ZArith NArith List Bool Lia.
 Import ListNotations.
 From PG Require Import Common.Tactics Model.SymCoreDefs Model.SymCoreOps Model.SymCoreSpec Model.SymCoreC02
@@ -12,54 +12,70 @@ Lemma clean_eitems : forall a b, eitems a = eitems b -> clean a -> clean b.
 Proof. intros. apply (clean_evals a b); auto. rewrite <- !pvals_eitems. congruence. Qed.
 
 Section DictOps.
-Variables (q : quirks) (sc : scope) (r : nat) (tid : N) (fl : flags).
+Variables (q : quirks) (sc : scope) (ps : pos) (tid : N) (pa : option N) (fl : flags).
 Hypothesis NQ : no_quirks q.
 
-Lemma dwrote_intro : forall st st' its', root_is st' r tid KDict fl its' -> clean its' -> keeps_other r st st' ->
-  dwrote st r tid fl st' (eitems its').
-Proof. intros; exists its'; auto. Qed.
-Lemma dwrote_refl : forall st its, root_is st r tid KDict fl its -> clean its -> dwrote st r tid fl st (eitems its).
-Proof. intros. apply dwrote_intro; auto. apply keeps_other_refl. Qed.
-Lemma dwrote_purge : forall st st' d', dwrote st r tid fl st' d' -> dwrote st r tid fl (update_at st' (r, []) purge_list) d'.
+Lemma dwrote_refl : forall st its, at_is st ps tid KDict pa fl its -> clean its -> anc_clean st ps -> wfs st ->
+  dwrote st ps tid pa fl st (eitems its).
+Proof. intros. exists its. repeat split; auto. apply keeps_other_refl. Qed.
+Lemma dwrote_fix_chain : forall st st' d' (b : bool), dwrote st ps tid pa fl st' d' ->
+  dwrote st ps tid pa fl (if b then fix_chain st' ps else st') d'.
 Proof.
-  intros st st' d' (its' & R & C & E & K).
-  exists its'. repeat split; auto.
-  - unfold root_is. rewrite (get_root_update_at_same _ _ _ _ R). reflexivity.
-  - eapply keeps_other_trans; eauto. apply keeps_other_update_at.
+  intros. destruct b; auto. destruct H as (its' & R & C & E & K & A & W).
+  rewrite fix_chain_id; auto. { exists its'; auto 10. }
+  intros pre suf i pa0 pt fl0 its0 ES G. destruct suf.
+  - rewrite app_nil_r in ES. subst pre. unfold at_is in R. rewrite <- surjective_pairing in G. rewrite R in G. discriminate.
+  - eapply A; eauto. discriminate.
 Qed.
-Lemma dwrote_fix_chain : forall st st' d' (b : bool), dwrote st r tid fl st' d' ->
-  dwrote st r tid fl (if b then fix_chain st' (r, []) else st') d'.
-Proof. intros. destruct b; auto. rewrite fix_chain_root. apply dwrote_purge; auto. Qed.
-Lemma dwrote_notified : forall st st' d' p, dwrote st r tid fl st' d' -> dwrote st r tid fl (notified sc st' (r, []) p) d'.
+Lemma dwrote_notified : forall st st' d' p, dwrote st ps tid pa fl st' d' -> dwrote st ps tid pa fl (notified sc st' ps p) d'.
 Proof. intros. unfold notified. destruct p; auto. apply dwrote_fix_chain; auto. Qed.
+Lemma dat_children : forall st its, wfs st -> at_is st ps tid KDict pa fl its ->
+  Forall (child_wf tid (snd ps)) its /\ NoDup (map fst its).
+Proof. intros. destruct (container_facts _ _ _ _ _ _ _ _ H H0) as (_ & K & F). auto. Qed.
 
-Lemma dclear_core_root : forall st its, root_is st r tid KDict fl its -> dwrote st r tid fl (clear_core sc st (r, []) its) [].
+(* new items for the dict, some items detached *)
+Lemma ditems_replaced : forall st its its' gone,
+  at_is st ps tid KDict pa fl its -> anc_clean st ps -> wfs st -> clean its' ->
+  NoDup (map fst its') -> Forall (child_wf tid (snd ps)) its' -> Forall (fun kv => exists ep pt, wf_node ep pt (snd kv)) gone ->
+  dwrote st ps tid pa fl (detach_all (update_at st ps (set_items its')) gone) (eitems its').
 Proof.
-  intros st its R. unfold clear_core.
-  assert (W : dwrote st r tid fl (detach_all (update_at st (r, []) (set_items [])) its) (eitems [])).
-  { exists []. repeat split; auto.
-    - apply keeps_roots_detach_all. unfold root_is. rewrite (get_root_update_at_same _ _ _ _ R). reflexivity.
-    - constructor.
-    - red; intros. apply keeps_roots_detach_all. rewrite get_root_update_at_other; auto. }
+  intros st its its' gone R A W C ND F G.
+  assert (W1 : wfs (update_at st ps (set_items its'))).
+  { eapply wfs_replace_items; [exact W | exact W | exact R | auto | exact ND | exact F]. }
+  destruct (written_here' st ps tid pa fl its KDict R A st its' eq_refl) as (R1 & K1 & A1).
+  exists its'. repeat split; auto.
+  - unfold at_is. eapply keeps_roots_get_at. apply keeps_roots_detach_all. exact R1.
+  - eapply keeps_other_trans; eauto. apply keeps_roots_other. apply keeps_roots_detach_all.
+  - eapply anc_clean_keeps; [apply keeps_roots_detach_all| |exact A1]. eapply get_at_root_some; eauto.
+  - apply detach_all_wfs; auto.
+Qed.
+Lemma dclear_core_at : forall st its, at_is st ps tid KDict pa fl its -> anc_clean st ps -> wfs st ->
+  dwrote st ps tid pa fl (clear_core sc st ps its) [].
+Proof.
+  intros st its R A W. unfold clear_core. destruct (dat_children _ _ W R) as (CF & KP).
+  assert (WR : dwrote st ps tid pa fl (detach_all (update_at st ps (set_items [])) its) (eitems [])).
+  { eapply ditems_replaced; eauto; try constructor. apply (children_wf_any tid (snd ps)); auto. }
   destruct its; auto. apply dwrote_fix_chain; auto.
 Qed.
 
 (* d.update(kvs) / d |= kvs: one key after the other through the dict primitive *)
-Lemma update_loop_root : forall kvs st its upd st' u e,
-  root_is st r tid KDict fl its -> clean its -> treats_as_sealed sc fl = false -> Forall (fun kv => plain_rv (snd kv)) kvs ->
-  rebind_loop q sc st (r, []) (map (fun kv : key * rvalue => ([fst kv], snd kv)) kvs) upd = (st', u, e) ->
-  e = None /\ dwrote st r tid fl st' (PyDict.dupdate key_eqb (eitems its) (map (fun kv => (fst kv, prv (snd kv))) kvs)).
+Lemma update_loop_at : forall kvs st its upd st' u e,
+  at_is st ps tid KDict pa fl its -> clean its -> anc_clean st ps -> wfs st ->
+  treats_as_sealed sc fl = false -> Forall (fun kv => plain_rv (snd kv)) kvs ->
+  rebind_loop q sc st ps (map (fun kv : key * rvalue => ([fst kv], snd kv)) kvs) upd = (st', u, e) ->
+  e = None /\ dwrote st ps tid pa fl st' (PyDict.dupdate key_eqb (eitems its) (map (fun kv => (fst kv, prv (snd kv))) kvs)).
 Proof.
-  induction kvs as [|[k rv] kvs IH]; intros st its upd st' u e R C SL F E; simpl in E.
+  induction kvs as [|[k rv] kvs IH]; intros st its upd st' u e R C A W SL F E; simpl in E.
   - inv E. split; auto. apply dwrote_refl; auto.
   - inv F. simpl in H1.
-    unfold root_is in R. rewrite !get_at_root, R in E. cbv iota beta in E. rewrite SL in E. unfold prim in E. rewrite get_at_root, R in E. cbv iota beta in E.
-    destruct (dprim q sc st (r, []) k rv) as [st1 p] eqn:D.
-    destruct (dprim_set q sc st r tid fl its R C k rv st1 p H1 D) as (PP & its1 & R1 & C1 & E1 & K1).
-    assert (exists upd', rebind_loop q sc st1 (r, []) (map (fun kv : key * rvalue => ([fst kv], snd kv)) kvs) upd' = (st', u, e)).
+    unfold at_is in R. rewrite R in E. cbv iota beta in E. rewrite app_nil_r in E. rewrite <- surjective_pairing in E.
+    rewrite R in E. cbv iota beta in E. rewrite SL in E. unfold prim in E. rewrite R in E. cbv iota beta in E.
+    destruct (dprim q sc st ps k rv) as [st1 p] eqn:D.
+    destruct (dprim_set q sc st ps tid pa fl its R C A W k rv st1 p H1 D) as (PP & its1 & R1 & C1 & E1 & K1 & A1 & W1).
+    assert (exists upd', rebind_loop q sc st1 ps (map (fun kv : key * rvalue => ([fst kv], snd kv)) kvs) upd' = (st', u, e)).
     { destruct PP; subst p; eauto. }
     destruct H as [upd' E'].
-    destruct (IH st1 its1 upd' st' u e R1 C1 SL H2 E') as (EE & its2 & R2 & C2 & E2 & K2).
+    destruct (IH st1 its1 upd' st' u e R1 C1 A1 W1 SL H2 E') as (EE & its2 & R2 & C2 & E2 & K2 & A2 & W2).
     split; auto. exists its2. repeat split; auto.
     + rewrite E2. simpl. unfold PyDict.dupdate. simpl. rewrite E1. reflexivity.
     + eapply keeps_other_trans; eauto.
@@ -93,12 +109,12 @@ Definition dret_agrees (st' : state) (out : outcome) (ret : PyDict.dret key pv) 
   | PyDict.DrVal v => (exists old, out = Ok (ret_item st' old) /\ erase old = v) \/
                       (exists ps rv, out = Ok (ret_of_rv st' ps rv) /\ prv rv = v)
   | PyDict.DrKV k v => exists old, out = Ok (RKV k (ret_item st' old)) /\ erase old = v
-  | PyDict.DrDict d => exists ri tid' fl' its', out = Ok (RPos (ri, [])) /\ root_is st' ri tid' KDict fl' its' /\ clean its' /\ eitems its' = d
+  | PyDict.DrDict d => exists ri tid' fl' its', out = Ok (RPos (ri, [])) /\ at_is st' (ri, []) tid' KDict None fl' its' /\ clean its' /\ eitems its' = d
   | _ => False
   end.
 
 Section DictRefine.
-Variables (q : quirks) (sc : scope) (r : nat) (tid : N) (fl : flags).
+Variables (q : quirks) (sc : scope) (ps : pos) (tid : N) (pa : option N) (fl : flags).
 Hypothesis NQ : no_quirks q.
 
 Lemma rev_last : forall A (l : list A) x t, rev l = x :: t -> l = removelast l ++ [x].
@@ -108,74 +124,84 @@ Proof.
 Qed.
 
 Theorem exec_dict_refines : forall st its ro o st' out,
-  wfs st -> root_is st r tid KDict fl its -> clean its -> permits sc fl -> plain_dop ro -> dop_of ro = Some o ->
-  exec q sc st (r, []) tid KDict [] fl its ro = (st', out) ->
+  wfs st -> at_is st ps tid KDict pa fl its -> clean its -> anc_clean st ps -> permits sc fl -> plain_dop ro -> dop_of ro = Some o ->
+  exec q sc st ps tid KDict (snd ps) fl its ro = (st', out) ->
   match py_dstep (eitems its) o with
   | inr e => st' = st /\ out = Err (err_of e)
-  | inl (d', ret) => dwrote st r tid fl st' d' /\ dret_agrees st' out ret
+  | inl (d', ret) => dwrote st ps tid pa fl st' d' /\ dret_agrees st' out ret
   end.
 Proof.
-  intros st its ro o st' out W R C [SL AW] PL LO E.
+  intros st its ro o st' out W R C A [SL AW] PL LO E.
+  destruct (dat_children ps tid pa fl st its W R) as [CF KP].
   unfold py_dstep, PyDict.dstep.
   destruct ro; simpl in LO; inv LO; unfold exec in E; rewrite ?SL, ?AW in E; cbn [negb andb] in E; simpl in PL.
   - (* d[k] = v *)
-    destruct (dprim q sc st (r, []) k v) as [st1 p] eqn:D.
-    destruct (dprim_set q sc st r tid fl its R C k v st1 p PL D) as [PP WR].
+    destruct (dprim q sc st ps k v) as [st1 p] eqn:D.
+    destruct (dprim_set q sc st ps tid pa fl its R C A W k v st1 p PL D) as [PP WR].
     destruct PP; subst p; inv E; (split; [|reflexivity]); first [assumption | apply dwrote_fix_chain; auto | apply dwrote_notified; auto].
   - (* del d[k] *)
     unfold PyDict.dhas. rewrite dget_eitems. unfold has_key in E.
-    destruct (assoc k its) as [old|] eqn:A; simpl in *.
-    + destruct (dprim q sc st (r, []) k (RLeaf LMissing)) as [st1 p] eqn:D.
-      destruct (dprim_del q sc st r tid fl its R C k st1 p ltac:(unfold has_key; rewrite A; auto) D) as [PP WR].
+    destruct (assoc k its) as [old|] eqn:AS; simpl in *.
+    + destruct (dprim q sc st ps k (RLeaf LMissing)) as [st1 p] eqn:D.
+      destruct (dprim_del q sc st ps tid pa fl its R C A W k st1 p ltac:(unfold has_key; rewrite AS; auto) D) as [PP WR].
       subst p. inv E. split; [|reflexivity]. apply dwrote_fix_chain; auto.
     + inv E; auto.
   - (* pop *)
-    rewrite dget_eitems. destruct (assoc k its) as [old|] eqn:A; simpl.
-    + destruct (dprim q sc st (r, []) k (RLeaf LMissing)) as [st1 p] eqn:D.
-      destruct (dprim_del q sc st r tid fl its R C k st1 p ltac:(unfold has_key; rewrite A; auto) D) as [PP WR].
+    rewrite dget_eitems. destruct (assoc k its) as [old|] eqn:AS; simpl.
+    + destruct (dprim q sc st ps k (RLeaf LMissing)) as [st1 p] eqn:D.
+      destruct (dprim_del q sc st ps tid pa fl its R C A W k st1 p ltac:(unfold has_key; rewrite AS; auto) D) as [PP WR].
       subst p. inv E. split; [apply dwrote_fix_chain; auto|]. left. exists old; auto.
     + destruct d as [l|]; simpl; inv E; auto. split; [apply dwrote_refl; auto|]. left. exists (Leaf l); auto.
   - (* popitem *)
     rewrite <- eitems_rev. destruct (rev its) as [|[k old] t] eqn:RV; simpl.
     + inv E; auto.
-    + inv E. split.
-      * apply dwrote_fix_chain. rewrite <- eitems_removelast. apply dwrote_intro.
-        -- apply keeps_roots_add_detached. unfold root_is. rewrite (get_root_update_at_same _ _ _ _ R). reflexivity.
-        -- pose proof (rev_last _ _ _ _ RV) as EL. unfold clean in *. rewrite EL in C. apply Forall_app in C. tauto.
-        -- red; intros. apply keeps_roots_add_detached. rewrite get_root_update_at_other; auto.
+    + injection E as E1 E2. subst st' out. split.
+      * apply dwrote_fix_chain. rewrite <- eitems_removelast.
+        pose proof (rev_last _ _ _ _ RV) as EL.
+        change (add_detached (update_at st ps (set_items (removelast its))) old)
+          with (detach_all (update_at st ps (set_items (removelast its))) [(k, old)]).
+        eapply ditems_replaced; eauto.
+        -- unfold clean in *. rewrite EL in C. apply Forall_app in C. tauto.
+        -- rewrite map_fst_removelast. apply removelast_nodup; auto.
+        -- apply removelast_forall; auto.
+        -- constructor; auto. simpl. rewrite EL in CF. apply Forall_app in CF. destruct CF as [_ CF]. inv CF. red in H1. simpl in H1. eauto.
       * exists old; auto.
   - (* clear *)
-    inv E. split; [apply dclear_core_root; auto|reflexivity].
+    inv E. split; [apply dclear_core_at; auto|reflexivity].
   - (* setdefault *)
-    rewrite dget_eitems. destruct (assoc k its) as [old|] eqn:A; simpl.
-    + rewrite (clean_assoc _ _ _ C A) in E. inv E. split; [apply dwrote_refl; auto|]. left. exists old; auto.
-    + destruct (dprim q sc st (r, []) k v) as [st1 p] eqn:D.
-      destruct (dprim_set q sc st r tid fl its R C k v st1 p PL D) as [PP WR].
+    rewrite dget_eitems. destruct (assoc k its) as [old|] eqn:AS; simpl.
+    + rewrite (clean_assoc _ _ _ C AS) in E. inv E. split; [apply dwrote_refl; auto|]. left. exists old; auto.
+    + destruct (dprim q sc st ps k v) as [st1 p] eqn:D.
+      destruct (dprim_set q sc st ps tid pa fl its R C A W k v st1 p PL D) as [PP WR].
       destruct PP; subst p; inv E; (split; [first [assumption | apply dwrote_fix_chain; auto | apply dwrote_notified; auto]|]); right; eauto.
   - (* update *)
     unfold rebind_core in E.
-    destruct (rebind_loop q sc st (r, []) (map (fun kv : key * rvalue => ([fst kv], snd kv)) kvs) []) as [[st1 u] e] eqn:L.
-    destruct (update_loop_root q sc r tid fl kvs st its [] st1 u e R C SL PL L) as [EE WR]. subst e. inv E. split; auto. reflexivity.
+    destruct (rebind_loop q sc st ps (map (fun kv : key * rvalue => ([fst kv], snd kv)) kvs) []) as [[st1 u] e] eqn:L.
+    destruct (update_loop_at q sc ps tid pa fl kvs st its [] st1 u e R C A W SL PL L) as [EE WR]. subst e. inv E. split; auto. reflexivity.
   - (* |= *)
     unfold rebind_core in E.
-    destruct (rebind_loop q sc st (r, []) (map (fun kv : key * rvalue => ([fst kv], snd kv)) kvs) []) as [[st1 u] e] eqn:L.
-    destruct (update_loop_root q sc r tid fl kvs st its [] st1 u e R C SL PL L) as [EE WR]. subst e. inv E. split; auto. reflexivity.
+    destruct (rebind_loop q sc st ps (map (fun kv : key * rvalue => ([fst kv], snd kv)) kvs) []) as [[st1 u] e] eqn:L.
+    destruct (update_loop_at q sc ps tid pa fl kvs st its [] st1 u e R C A W SL PL L) as [EE WR]. subst e. inv E. split; auto. reflexivity.
   - (* copy *)
     destruct (clone_at (q_copy_drops_missing q) false None [] (Node tid KDict None [] fl its) (next_id st, [])) as [c cs] eqn:CL.
     inv E.
-    assert (ER : erase c = erase (Node tid KDict None [] fl its)).
-    { replace c with (fst (clone_at (q_copy_drops_missing q) false None [] (Node tid KDict None [] fl its) (next_id st, []))) by (rewrite CL; auto).
-      red in R. rewrite <- get_at_root in R. destruct (wfs_get_at _ _ _ W R) as (ep & WN).
+    pose proof (clone_root_wfs q false st tid KDict pa (snd ps) fl its ps c cs W R CL) as W1.
+    assert (ER : erase c = erase (Node tid KDict pa (snd ps) fl its)).
+    { rewrite (clone_at_ignores_header _ _ _ _ _ _ _ _ _ _ tid pa (snd ps)) in CL.
+      replace c with (fst (clone_at (q_copy_drops_missing q) false None [] (Node tid KDict pa (snd ps) fl its) (next_id st, []))) by (rewrite CL; auto).
+      destruct (wfs_get_at _ _ _ W R) as (ep & WN).
       eapply clone_erase; eauto. left; exact NQ. }
     rewrite clone_at_node in CL. cbv zeta in CL.
     match type of CL with (let '(_, _) := ?X in _) = _ => destruct X as [its' cs'] eqn:CI end.
     inv CL. rewrite !erase_node in ER. injection ER as EI.
+    pose proof (get_at_lt _ _ _ R) as LT.
     split.
-    + apply dwrote_intro; auto.
-      * apply get_root_add_root. exact R.
+    + exists its. repeat split; auto.
+      * unfold at_is. eapply keeps_roots_get_at; [|exact R]. red; intros. apply get_root_add_root. auto.
       * red; intros. apply get_root_add_root. auto.
+      * eapply anc_clean_keeps; [| |exact A]. red; intros; apply get_root_add_root; auto. eapply get_at_root_some; eauto.
     + exists (length (roots st)), (next_id st), fl, its'. repeat split; auto.
-      * exact (get_root_add_root_new (with_next st (fst cs)) _).
+      * unfold at_is. rewrite get_at_root. exact (get_root_add_root_new (with_next st (fst cs)) _).
       * eapply clean_eitems; [symmetry; eauto|auto].
 Qed.
 End DictRefine.
